@@ -107,11 +107,20 @@ def classes_of(g):
     return out
 
 
+def path_scope(k):
+    """k = operator bound, or 'tt' = exactly two operators, both temporal, over {p,q}: the outer
+    temporal operator has a path formula as operand ((X p) R q, G F p, ...)."""
+    if k == 'tt':
+        return [g for g in fm.enum_exact(fm.LTL_UN, fm.LTL_BIN, (fm.P, fm.Q), 2)
+                if g[0] in fm.TEMP and fm.temporal_count(g) == 2]
+    return fm.ltl_paths(k)
+
+
 def enum_shard(st, shard, nshards, payload):
     L = fm.lang('LTL')
     idx = -1
     for (n, k, stride) in payload['scopes']:
-        paths = fm.ltl_paths(k)
+        paths = path_scope(k)
         objs = [fm.to_lib(('A', g), L) for g in paths]
         cls = [classes_of(g) for g in paths]
         for K in scope_iter(n, stride, nshards):
@@ -167,13 +176,15 @@ def run(ctx):
                 'differs from the propositional evaluation of g with temporal subformulas read '
                 'as false and as true.')
     if ctx.thorough:
-        scopes = [(1, 2, 1), (2, 2, 1), (3, 1, 1), (4, 1, 4001)]
+        scopes = [(1, 2, 1), (2, 2, 1), (3, 1, 1), (4, 1, 4001), (3, 'tt', 5), (3, 2, 211), (4, 'tt', 20011)]
         ctx.scopes = ['S(1)+S(2) x LTL path k<=2 (4324 formulas)', 'S(3) x k<=1 (100 formulas)',
-                      'every 4001st of S(4) x k<=1']
+                      'every 4001st of S(4) x k<=1', 'every 5th of S(3) x tt (90 formulas with two nested temporal operators)',
+                      'every 211th of S(3) x k<=2', 'every 20011th of S(4) x tt']
     else:
-        scopes = [(1, 2, 1), (2, 1, 1), (2, 2, 12), (3, 1, 24), (4, 1, 60013)]
+        scopes = [(1, 2, 1), (2, 1, 1), (2, 2, 12), (3, 1, 24), (4, 1, 60013), (3, 'tt', 211)]
         ctx.scopes = ['S(1) x k<=2', 'S(2) x k<=1', 'every 12th of S(2) x k<=2',
-                      'every 24th of S(3) x k<=1', 'every 60013th of S(4) x k<=1']
+                      'every 24th of S(3) x k<=1', 'every 60013th of S(4) x k<=1',
+                      'every 211th of S(3) x tt (two nested temporal operators)']
     ctx.exhaustive = True
     ctx.assumptions = ['reference semantics vp/ref.py (R-STAR certified by R-PATH) is the trusted base',
                        'formulas are bounded to <= 3 temporal operators because the tableau under '
@@ -183,7 +194,13 @@ def run(ctx):
         ctx.violation(minimise(f, check_ltl, valid=fm.ltl_path, key='g'))
         return
 
-    st = ctx.stats
+    f = core.run_random(ctx, random_shard, 1200, 12000)
+    if f is not None:
+        ctx.violation(f)
+
+
+def random_shard(st, shard, nshards, payload):
+    from hypothesis import strategies as hs
     case = hs.fixed_dictionaries({
         'K': km.st_kripke(1, 5),
         'g': fm.st_formula('ltl_path', max_depth=3, max_temporal=3),
@@ -209,6 +226,6 @@ def run(ctx):
         st.add_extra('lasso_certificates_checked', bin(M.full & ~exp).count('1'))
         return check_ltl(inp)
 
-    f = core.run_hypothesis(ctx, case, body, ctx.pick(600, 8000))
+    f = core.hyp_run(payload['seed'] * 1000 + shard, case, body, payload['n'])
     if f is not None:
-        ctx.violation(f)
+        st.failure = f
